@@ -39,7 +39,9 @@ CLAIMS = {
              "connections under any configuration - the model runs to the end without reaching an abort site (C05_no_abort); every reachable world handles every further event (C05_keeps_serving); "
              "the invariant that makes the 139 inventoried abort sites unreachable holds in every reachable world (C05_invariant: membership stored twice agrees, rank lists mirror flags, counters "
              "equal true counts so no checked decrement underflows, every registered connection owns its user); an event of connection i leaves every other connection that the step does not close "
-             "exactly as it was (C05_others_untouched). The implementation is tied to the model on every run: any panic in the real server (hook) or any unexpected EOF is a violation.",
+             "exactly as it was (C05_others_untouched); a connection closed by a step is the sender itself - over-long line, invalid text, its own close, pong timeout, connection limit, or a line whose "
+             "handler asked for it, which happens only for QUIT and for a failed password at the end of registration (all 41 commands) - or the line was KILL/DIE/SQUIT of an operator "
+             "(C05_closed_only_by_protocol, C05_quit_causes). The implementation is tied to the model on every run: any panic in the real server (hook) or any unexpected EOF is a violation.",
         design_ref="5 (C05)",
         note="Which endings count as protocol endings (QUIT, 464, KILL/DIE, timeout, bad text, over-long line, connection limit) is fixed by the model's step function and compared with the real server trace by trace; tokio task aborts outside handler code are outside the model."),
     "C02": dict(
